@@ -79,7 +79,8 @@ def register(check, pending):
           TB + "; dense simulator", "DESIGN.md section 4 C12")
     check("C13", RM + "offline checker over recorded API sessions vs answers of a pristine forked process and of another interpreter",
           "Sessions in fresh interpreters (three hash seeds) interleave calls of 18 entry points, caller-side mutation of everything "
-          "returned earlier and re-requests; every result must equal a pristine process's answer, arguments (incl. metadata of caller "
+          "returned earlier, legal in-place edits of the caller's own argument objects followed by a call with the very same objects, "
+          "and re-requests; every result must equal a pristine process's answer (built and edited alike), arguments (incl. metadata of caller "
           "circuits) must be unchanged, untouched earlier results must stay unchanged (retention monitor); an audit hook records "
           "cold/warm cache. Sampled histories.",
           TB + "; fork-before-first-call = fresh interpreter (cross-checked against a separately started interpreter)", "DESIGN.md section 4 C13")
